@@ -60,6 +60,10 @@ fn one(ctx: &Ctx, rep: &mut Report, id: usize, cfg: Cfg, vc: ValueClass, pc: Pro
     rep.eval(&(GROUP, case.key(), kind.clone()));
     rep.count(&format!("cases_{GROUP}"), 1);
     rep.count(&format!("rng_{}", rk), 1);
+    if let Err(e) = RangeStatement::init(case.params(), case.commitments.clone(), case.promises.clone(), case.seed) {
+        rep.violation(&format!("C01 statement-refused {sig_cfg}"), &format!("the statement constructor refuses a valid statement (identity commitment present: {}): {e}", case.commitments.iter().any(|c| *c == P::identity())), replay);
+        return;
+    }
     if let Err(e) = case.try_witness() {
         rep.violation(&format!("C01 witness-refused {sig_cfg}"), &format!("the witness constructor refuses a valid witness (blindings zero: {}): {e}", case.blindings.iter().flatten().any(|b| *b == Scalar::ZERO)), replay);
         return;
